@@ -1472,7 +1472,7 @@ MODULE cgns
 !!$   END SUBROUTINE cg_field_read_f
 !!$END INTERFACE
 
-    SUBROUTINE cg_field_id_f(fn, B, Z, S, F, field_id, ier) !BIND(C, NAME="cg_field_id_f")
+    SUBROUTINE cg_field_id_f(fn, B, Z, S, F, field_id, ier) BIND(C, NAME="cg_field_id_f")
       IMPORT :: c_double
       IMPLICIT NONE
       INTEGER :: fn
@@ -1877,7 +1877,7 @@ MODULE cgns
       INTEGER, INTENT(OUT) :: ier
     END SUBROUTINE cg_1to1_read_f
 
-    SUBROUTINE cg_1to1_id_f(fn, B, Z, I, one21_id, ier) !BIND(C, NAME="cg_1to1_id_f")
+    SUBROUTINE cg_1to1_id_f(fn, B, Z, I, one21_id, ier) BIND(C, NAME="cg_1to1_id_f")
       IMPORT :: c_double
       IMPLICIT NONE
       INTEGER :: fn
@@ -2622,7 +2622,7 @@ MODULE cgns
       INTEGER, INTENT(OUT) :: ier
     END SUBROUTINE cg_convergence_read_f
 
-    SUBROUTINE cg_state_size_f(size, ier) !BIND(C, NAME="cg_state_size_f")
+    SUBROUTINE cg_state_size_f(size, ier) BIND(C, NAME="cg_state_size_f")
       IMPLICIT NONE
       INTEGER :: size
       INTEGER, INTENT(OUT) :: ier
